@@ -18,3 +18,4 @@ def run(col, configs, tier):
         guarded(col, W.rule_grisu, facts)
         guarded(col, X.rule_divisibility_test, facts)
         guarded(col, X.rule_grisu_weed, facts)
+        guarded(col, X.rule_jeaiii, facts)
